@@ -72,20 +72,19 @@ fn format_any_string() -> String {
     unsafe { String::from_utf8_unchecked(v) }
 }
 
-/// Symbolic move text (4 or 5 ASCII bytes) under Kani.  Natively: consumes the same draws, then the
-/// draws of the selection the solver made inside `gen_any_one`, and returns the UCI text of that move
-/// (or "a1a1", which no generator emits, if the generator does not emit the selected key here).
+/// The move text.  Under Kani a fixed string: `Move::to_uci_string` is stubbed by an arbitrary string, so
+/// whether the text "matches" the one list element is nondeterministic whatever the text is - a symbolic
+/// text would add cost (trim, compare, copy) and no behaviour.  Natively: the UCI text of the move the
+/// solver selected inside `gen_any_one` (or "a1a1", which no generator emits, if the generator does not
+/// emit the selected key here).
 fn text_for(bb: &Bitboard) -> ([u8; 5], usize, Option<Key>) {
-    let b: [u8; 5] = [sym::u8() & 127, sym::u8() & 127, sym::u8() & 127, sym::u8() & 127, sym::u8() & 127];
-    let five = sym::bool();
     #[cfg(kani)]
     {
         let _ = bb;
-        (b, if five { 5 } else { 4 }, None)
+        ([b'e', b'2', b'e', b'4', 0], 4, None)
     }
     #[cfg(not(kani))]
     {
-        let _ = (b, five);
         selection_text(bb)
     }
 }
@@ -185,58 +184,109 @@ pub fn c13_make(kinds: &[u8], turn: u8, optional: bool) {
     core::mem::forget(r);
 }
 
-/// make_all_uci with two moves: Err (at index 0 or 1) => unchanged; Ok => both applied.
+#[cfg(kani)]
+pub static mut FIND_CALLS: u32 = 0;
+/// `c13_allw`: the second call may report MoveIsNotValid only where such a move certainly exists natively
+/// (kings at distance <= 2: a king step next to the other king), so that a counterexample replays.
+#[cfg(kani)]
+pub static mut WITNESS_ONLY: bool = false;
+
+#[cfg(kani)]
+fn kings_close(bb: &Bitboard) -> bool {
+    let a = bb.white.kings().trailing_zeros() as i32;
+    let b = bb.black.kings().trailing_zeros() as i32;
+    (a % 8 - b % 8).abs() <= 2 && (a / 8 - b / 8).abs() <= 2
+}
+
+/// Stub target for `Bitboard::find_uci` in `c13_all` only.  What `c13_find` proves about the real function -
+/// it leaves the board unchanged and returns either a move of the pseudo-legal list or one of the two errors
+/// - is used as its model here, so that the harness pays for `make_all_uci`'s own logic (apply, record, roll
+/// back in reverse on any error) only.  First call: any emitted move may be found (legal or not: a superset)
+/// or either error; second call: either error (with an arbitrary payload), so that the list is rejected at
+/// index 0 or at index 1 - with one move to roll back - by either error kind.
+#[cfg(kani)]
+pub fn find_uci_model(this: &mut Bitboard, _uci: &str) -> Result<Move, MoveFromUciError> {
+    let call = unsafe { FIND_CALLS };
+    unsafe { FIND_CALLS += 1; }
+    let which = sym::u8();
+    if call == 0 {
+        let q = any_key();
+        let (m, mv) = observe(this, q, false);
+        if m == 1 && which == 0 {
+            Ok(mv)
+        } else if m == 1 && which == 1 {
+            Err(MoveFromUciError::MoveIsNotValid(mv))
+        } else {
+            Err(MoveFromUciError::MoveDoesNotExist(String::new()))
+        }
+    } else if which == 0 {
+        if unsafe { WITNESS_ONLY } { sym::assume(kings_close(this)); }
+        Err(MoveFromUciError::MoveIsNotValid(Move { bits: sym::u64(), mvvlva: 0 }))
+    } else {
+        Err(MoveFromUciError::MoveDoesNotExist(String::new()))
+    }
+}
+
+/// make_all_uci is all-or-nothing: a list of two moves rejected at index 0 or at index 1 (after one move has
+/// been applied), by either error kind, leaves the position as it was before the call.
 pub fn c13_all(kinds: &[u8], turn: u8, optional: bool) {
+    c13_all_impl(kinds, turn, optional, false)
+}
+
+/// Same with the witness-only model (a subset of `c13_all`'s behaviours whose counterexamples replay natively).
+pub fn c13_allw(kinds: &[u8], turn: u8, optional: bool) {
+    c13_all_impl(kinds, turn, optional, true)
+}
+
+fn c13_all_impl(kinds: &[u8], turn: u8, optional: bool, _witness_only: bool) {
     let (pos, mut bb) = any_pos(kinds, turn, optional);
-    set_pos(&pos, false);
+    let _ = &pos;
     let s0 = snap(&bb);
     #[cfg(kani)]
-    let moves: Vec<String> = {
-        let (t1, l1, _) = text_for(&bb);
-        let (t2, l2, _) = text_for(&bb);
-        vec![as_str(&t1, l1).to_string(), as_str(&t2, l2).to_string()]
-    };
+    unsafe { FIND_CALLS = 0; WITNESS_ONLY = _witness_only; }
+    #[cfg(kani)]
+    let moves: [String; 2] = [String::new(), String::new()];
     #[cfg(not(kani))]
-    let mut sels: [Key; 2] = [(0, 0, 0); 2];
-    #[cfg(not(kani))]
-    let moves: Vec<String> = {
-        // stream order under Kani: text1, text2, then (inside make_all_uci) selection 1, format, selection 2, format
-        for _ in 0..2 { for _ in 0..5 { let _ = sym::u8(); } let _ = sym::bool(); }
-        let (t1, l1, sel1) = selection_text(&bb);
-        let first = as_str(&t1, l1).to_string();
-        let mut second = "a1a1".to_string();
-        if let Some(q) = sel1 {
-            if legal(&pos, q.0, q.1, q.2) {
-                let mut tmp = Bitboard { white: bb.white, black: bb.black, turn: bb.turn, en_passant_square_shift: bb.en_passant_square_shift, fullmove_clock: bb.fullmove_clock, halfmove_clock: bb.halfmove_clock };
-                let (_, mv) = observe(&tmp, q, false);
-                tmp.make(mv);
-                let (t2, l2, sel2) = selection_text(&tmp);
-                second = as_str(&t2, l2).to_string();
-                sels = [q, sel2.unwrap_or((0, 0, 0))];
+    let moves: [String; 2] = {
+        // stream order under Kani: call 1: outcome selector, selection (3 draws); call 2: selector (+ payload)
+        let which1 = sym::u8();
+        let q = any_key();
+        let (m, mv1) = observe(&bb, q, false);
+        let t1 = if m == 1 && which1 <= 1 { native::uci(q.0, q.1, q.2) } else { "a1a1".to_string() };
+        let mut t2 = "a1a1".to_string();
+        if m == 1 && which1 == 0 {
+            let mut tmp = Bitboard { white: bb.white, black: bb.black, turn: bb.turn, en_passant_square_shift: bb.en_passant_square_shift, fullmove_clock: bb.fullmove_clock, halfmove_clock: bb.halfmove_clock };
+            tmp.make(mv1);
+            if tmp.is_valid() {
+                let which2 = sym::u8();
+                if which2 == 0 {
+                    // a pseudo-legal move of the successor that leaves the king attacked, if there is one
+                    for cand in tmp.generate_pseudo_legal_moves() {
+                        if !tmp.is_move_legal(cand) { t2 = cand.to_uci_string(); break; }
+                    }
+                }
             }
         }
-        vec![first, second]
+        sym::note("move_list", format!("{} {}", t1, t2));
+        [t1, t2]
     };
     let r = bb.make_all_uci(&moves);
     #[cfg(not(kani))]
-    sym::note("board_after", crate::native_util::describe(&bb));
+    {
+        sym::note("result", format!("{:?}", r.as_ref().map_err(|e| format!("{:?}", e).chars().take(40).collect::<String>())));
+        sym::note("board_after", crate::native_util::describe(&bb));
+    }
     match &r {
         Ok(()) => {
-            cov!(true, "make_all_uci applies both moves");
-            assert!(bb.turn == s0.turn && bb.fullmove_clock == s0.full + 1, "C13 make_all_uci returned Ok without applying both moves");
-            #[cfg(kani)]
-            let sels = unsafe { SEL };
-            let (q1, q2) = (sels[0], sels[1]);
-            assert!(legal(&pos, q1.0, q1.1, q1.2), "C13 make_all_uci applied a first move that is not legal");
-            let n1 = apply(&pos, q1.0, q1.1, q1.2);
-            assert!(legal(&n1, q2.0, q2.1, q2.2), "C13 make_all_uci applied a second move that is not legal");
-            let n2 = apply(&n1, q2.0, q2.1, q2.2);
-            let s = sym::sq();
-            assert!(matches_ref(&bb, &n2, s), "C13 make_all_uci did not reach the position the rules define after both moves");
+            // unreachable under the model (the second call always fails); natively a list of two legal moves
+        }
+        Err(MoveFromUciError::MoveIsNotValid(_)) => {
+            cov!(true, "make_all_uci rejects a list because a move leaves the king attacked");
+            assert!(same(&bb, &s0), "C13 make_all_uci rejected an illegal move but did not restore the position before the call");
         }
         Err(_) => {
-            cov!(bb.turn == s0.turn, "make_all_uci rejects");
-            assert!(same(&bb, &s0), "C13 make_all_uci returned an error but did not restore the position before the call");
+            cov!(true, "make_all_uci rejects a list because a move does not exist");
+            assert!(same(&bb, &s0), "C13 make_all_uci reported an unknown move but did not restore the position before the call");
         }
     }
     core::mem::forget(r);
